@@ -1,6 +1,7 @@
 package keeper
 
 import (
+	"bytes"
 	"context"
 	"fmt"
 
@@ -99,6 +100,10 @@ func (k msgServer) CreateDataSource(
 			return nil, types.ErrUncompressionFailed.Wrap(err.Error())
 		}
 	}
+	// ValidateBasic only sees the compressed bytes
+	if bytes.Equal(msg.Executable, types.DoNotModifyBytes) {
+		return nil, types.ErrCreateWithDoNotModify
+	}
 
 	owner, err := sdk.AccAddressFromBech32(msg.Owner)
 	if err != nil {
@@ -192,6 +197,10 @@ func (k msgServer) CreateOracleScript(
 		if err != nil {
 			return nil, types.ErrUncompressionFailed.Wrap(err.Error())
 		}
+	}
+	// ValidateBasic only sees the compressed bytes
+	if bytes.Equal(msg.Code, types.DoNotModifyBytes) {
+		return nil, types.ErrCreateWithDoNotModify
 	}
 
 	owner, err := sdk.AccAddressFromBech32(msg.Owner)
